@@ -1001,3 +1001,9 @@ def run(ctx, R):
         RC + ':get_providers_with_root',
         RC + ':get_usages_by_provider_trees'])
     R.count('R3.7', n7, 11)
+    # the aggregate filter of a candidate search: an any-of group ignores
+    # uuids never recorded and empties the result only when wholly unknown
+    # (the listing's R13.7, on the function both share)
+    from psa.rules import c13
+    n15 = C.reuse_obligations(ctx, R, c13.r137, 'R3.15')
+    R.count('R3.15', n15, 1)
